@@ -198,6 +198,26 @@ def gen_recycle_frame(rng, bsid=4, ccrc=None, bcrc=None, dict_=b"", delta=None, 
             "delta": delta, "hlen": len(header(bsid, False, bcrc, csize, ccrc, None)), "ncomp": ncomp}
     return fr, bytes(content), meta
 
+def stored_max_block(rng, maxb):
+    """A strictly valid compressed block whose STORED size is exactly maxb (lz4's own compressors never emit one:
+    a block that does not shrink is stored raw).  All literals; if no literal count gives the exact size (the
+    length encoding skips a value every 255) a leading 4-byte sequence shifts it.  Returns (block, content)."""
+    for pre_lits in (None, 1, 2):
+        pre = b"" if pre_lits is None else declib.enc_seq(b"x" * pre_lits, 1, 4)
+        prec = b"" if pre_lits is None else b"x" * (pre_lits + 4)
+        n = maxb - len(pre)
+        while n > 0:
+            tot = len(pre) + 1 + (((n - 15) // 255 + 1) if n >= 15 else 0) + n
+            if tot == maxb:
+                lits = rng.randbytes(n)
+                blk = pre + declib.enc_last(lits)
+                assert len(blk) == maxb
+                return blk, prec + lits
+            if tot < maxb:
+                break
+            n -= 1
+    raise RuntimeError("no block of stored size %d" % maxb)
+
 def mutate_frame(rng, fr):
     b = bytearray(fr)
     k = rng.randrange(7)
@@ -238,6 +258,11 @@ class FLib(Lib):
         if self.peek:
             for n in ("verif_cctx_alloc", "verif_cctx_type", "verif_cctx_stage", "verif_dctx_stage", "verif_dctx_skip"):
                 f = getattr(L, n); f.restype = ctypes.c_int; f.argtypes = [P]
+            if hasattr(L, "verif_create_dctx"):
+                L.verif_create_dctx.restype = P; L.verif_create_dctx.argtypes = []
+                L.verif_alloc_count.restype = ctypes.c_int; L.verif_alloc_count.argtypes = []
+                L.verif_alloc_get.restype = ctypes.c_ulonglong; L.verif_alloc_get.argtypes = [ctypes.c_int]
+                L.verif_alloc_reset.restype = None; L.verif_alloc_reset.argtypes = []
             for n in ("verif_dctx_remaining", "verif_dctx_tmpInSize", "verif_dctx_tmpInTarget", "verif_dctx_maxBlockSize", "verif_dctx_maxBufferSize"):
                 f = getattr(L, n); f.restype = ctypes.c_ulonglong; f.argtypes = [P]
     def dstate(self, ctx):
@@ -261,11 +286,19 @@ class CDctx:
     (mode 'contig': prefix-mode history; the bytes beyond the window's capacity are checked to be untouched)."""
     def __init__(self, lib, version=100):
         self.lib = lib
-        p = c_void_p()
-        r = lib.F_createDecompressionContext(byref(p), version)
-        if r != 0:
-            raise RuntimeError("createDecompressionContext failed")
+        self.logged = getattr(lib, "peek", False) and hasattr(lib.L, "verif_create_dctx")
+        if self.logged:
+            # internal buffers through a recording allocator (plain malloc underneath: ASan still sees them)
+            p = c_void_p(lib.L.verif_create_dctx())
+            if not p.value:
+                raise RuntimeError("createDecompressionContext_advanced failed")
+        else:
+            p = c_void_p()
+            r = lib.F_createDecompressionContext(byref(p), version)
+            if r != 0:
+                raise RuntimeError("createDecompressionContext failed")
         self.ctx = p
+        self.allocs = []        # sizes requested by the last LZ4F_decompress call
         self.keep = []          # buffers that must stay alive (stableDst, dictionaries)
         self.contig = None
         self.cpos = 0
@@ -291,6 +324,7 @@ class CDctx:
         else:
             db = Buf(cap, data=fillpat(cap, salt)); dp = db.p; dsz = c_size_t(cap)
         opts = DOpts(1 if stable else 0, 1 if skip else 0, 0, 0)
+        if self.logged: lib.L.verif_alloc_reset()
         if dict_ is not None:
             if isinstance(dict_, Buf):
                 dbuf = dict_
@@ -300,6 +334,8 @@ class CDctx:
         else:
             r = lib.F_decompress(self.ctx, dp, byref(dsz), sb.p, byref(ssz), byref(opts))
         consumed = ssz.value; produced = dsz.value
+        if self.logged:
+            self.allocs = [lib.L.verif_alloc_get(i) for i in range(lib.L.verif_alloc_count())]
         if dstnull:
             img = b""
         elif self.contig is not None:
@@ -356,7 +392,8 @@ class MDctx:
         if len(a) < 8:
             raise RuntimeError("oracle: " + " ".join(a))
         st = [x for x in a if x.startswith("st=")]
-        return {"consumed": int(a[0]), "produced": int(a[1]), "ret": int(a[2]), "fuel": a[3], "oob": a[4], "stage": a[5],
+        capm = [x for x in a if x.startswith("cap=")]
+        return {"tmpInCap": int(capm[0][4:]) if capm else None, "consumed": int(a[0]), "produced": int(a[1]), "ret": int(a[2]), "fuel": a[3], "oob": a[4], "stage": a[5],
                 "outlen": int(a[6]), "outmd5": a[7], "state": st[0][3:] if st else None}
     def reset(self):
         self.orc.ask("reset", self.id)
@@ -404,6 +441,9 @@ CHUNKINGS = ["whole", "one", "hdr", "rand", "hint"]
 
 def chunk_plan(rng, policy, total, hlen=7):
     """returns a function giving the size of the next piece"""
+    if isinstance(policy, (list, tuple)):                 # explicit absolute cut positions
+        cuts = sorted(set(int(c) for c in policy if 0 < c < total)) + [total]
+        return lambda pos, hint: next(c for c in cuts if c > pos) - pos
     if policy == "whole":
         return lambda pos, hint: total - pos
     if policy == "one":
@@ -436,16 +476,16 @@ def cap_plan(rng, policy, bs):
 
 class Session:
     """One byte string fed to a C context and to the model context in lock step."""
-    def __init__(self, st, cd=None, md=None):
+    def __init__(self, st, cd=None, md=None, no_model=False):
         self.st = st
         self.lib = st["lib"]; self.orc = st["oracle"]
         self.cd = cd or CDctx(self.lib)
-        self.md = md or MDctx(self.orc)
+        self.md = md or (None if no_model else MDctx(self.orc))
         self.trace = []
         self.calls = 0
         self.stages = {}
         self.corr = None          # first model/code disagreement; afterwards the session goes on with the real code only
-        self.model_dead = False
+        self.model_dead = no_model   # no_model: real code only (ASan + direct oracles), for very long call sequences
     def call(self, src, cap, dstnull=False, skip=False, stable=False, dict_=None, dictbuf=None, salt=0):
         """one LZ4F_decompress call on both sides.  Returns (kind, info):
         kind 'ok' -> info = (consumed, produced bytes, ret); 'corr' / 'prop' -> info = description"""
@@ -477,6 +517,12 @@ class Session:
         elif self.lib.peek and c_ret >= 0 and m["state"] is not None:
             cs = self.lib.dstate(self.cd.ctx)
             self.stages[m["stage"]] = self.stages.get(m["stage"], 0) + 1
+            al = self.cd.allocs
+            if len(al) >= 2 and m.get("tmpInCap") is not None:
+                want = (m["tmpInCap"], int(m["state"].split(",")[5]))
+                if (al[-2], al[-1]) != want:
+                    problems.append("call %d: internal buffers allocated as tmpIn=%d, tmpOutBuffer=%d bytes; the model (and theorem C08_staging_in_bounds) has tmpIn=%d, tmpOutBuffer=%d" % (
+                        self.calls, al[-2], al[-1], want[0], want[1]))
             if cs != m["state"]:
                 problems.append("call %d: context fields (stage,remaining,tmpInSize,tmpInTarget,maxBlockSize,maxBufferSize,skip) code %s model %s" % (self.calls, cs, m["state"]))
         if problems:
@@ -510,7 +556,8 @@ class Session:
                 return None
         return None
     def free(self):
-        self.cd.free(); self.md.free()
+        self.cd.free()
+        if self.md is not None: self.md.free()
 
 def drive(sess, rng, data, chunking="whole", capmode="large", skip=False, stable=False, dict_=None, bs=65536, hlen=7,
           multi=False, max_calls=8000, dstnull_prob=0.0):
